@@ -132,7 +132,10 @@ fn build_probe(feats: &[String], slot: usize) -> Result<PathBuf, String> {
 fn err_class(line: &str) -> String {
     // "ERR consumed=N Variant(...)": the error variant
     let rest = line.splitn(3, ' ').nth(2).unwrap_or("");
-    rest.split(|c: char| c == '(' || c == '{' || c == ' ').next().unwrap_or("").to_string()
+    let outer = rest.split(|c: char| c == '(' || c == '{' || c == ' ').next().unwrap_or("").to_string();
+    // ... and, for parse errors, which kind (allocation limit, end of input, enum, string): `kind: Variant`
+    let kind = if outer != "Parse" { None } else { rest.find("kind: ") }.map(|i| rest[i + 6..].split(|c: char| c == '(' || c == '{' || c == ' ' || c == '}' || c == ',').next().unwrap_or("").to_string()).unwrap_or_default();
+    format!("{}:{}", outer, kind)
 }
 
 pub fn run(tier: Tier, replay: Option<String>) -> i32 {
@@ -245,6 +248,7 @@ pub fn run(tier: Tier, replay: Option<String>) -> i32 {
         let mut n = 0usize;
         let per_entry = tier.pick(5usize, 40);
         let mut excluded = 0u64;
+        let mut big_counts = 0u64;
         for e in &es {
             // recorded finding of C01 (size() <-> write_into_vec recursion aborts the process): excluded by construction
             if e.ns == Ns::World(Expansion::Wrath) && (e.name == "SMSG_COMPRESSED_MOVES" || e.name == "SMSG_MULTIPLE_MOVES") {
@@ -270,9 +274,53 @@ pub fn run(tier: Tier, replay: Option<String>) -> i32 {
                     g[l] ^= 0xFF;
                     lines.push_str(&format!("{} {} {} {}\n", n, e.ns.text(), e.dir.name(), vcommon::hex(&g)));
                     n += 1;
+                    // counts and lengths announcing between 64 KiB and 8 MiB of elements: which error a configuration
+                    // answers with (allocation limit, end of input) must not depend on the other features
+                    for l in cs.enc.trace.iter().filter(|l| l.region == 0 && l.width >= 2 && matches!(l.role, wowm_model::walk::Role::LengthOf | wowm_model::walk::Role::StrLen)).take(3) {
+                        for v in [0x4000u32, 0x2_0000, 0x40_0000] {
+                            if l.width == 2 && v > 0xFFFF {
+                                continue;
+                            }
+                            let mut g = f.clone();
+                            let off = cs.enc.header_len + l.offset;
+                            for i in 0..l.width.min(4) {
+                                g[off + i] = (v >> (8 * i)) as u8;
+                            }
+                            lines.push_str(&format!("{} {} {} {}\n", n, e.ns.text(), e.dir.name(), vcommon::hex(&g)));
+                            n += 1;
+                            big_counts += 1;
+                        }
+                    }
                 }
             }
         }
+        // compressed containers: the same message with a payload of zeros that inflates to sizes around the allocation limits
+        // (64 KiB and 8 MiB): whatever a configuration answers, every other configuration must answer the same
+        let mut inflated = 0u64;
+        for e in &es {
+            if e.ns == Ns::World(Expansion::Wrath) && (e.name == "SMSG_COMPRESSED_MOVES" || e.name == "SMSG_MULTIPLE_MOVES") {
+                continue;
+            }
+            let Ok(enc) = encode(&u, e, &[], &BTreeMap::new()) else { continue };
+            let Some(reg) = enc.regions.iter().find(|r| r.parent == 0) else { continue };
+            let body = enc.body();
+            if reg.size_field_offset + 4 > body.len() {
+                continue;
+            }
+            for size in [0xFFF0usize, 0xFFFF, 0x1_0000, 0x1_1170, 0x4_0000, 0x7F_FFFF, 0x80_0000] {
+                let stream = miniz_oxide::deflate::compress_to_vec_zlib(&vec![0u8; size], 6);
+                let mut b = body[..reg.size_field_offset].to_vec();
+                b.extend_from_slice(&(size as u32).to_le_bytes());
+                b.extend_from_slice(&stream);
+                let Some(mut f) = header(e, b.len()) else { continue };
+                f.extend_from_slice(&b);
+                lines.push_str(&format!("{} {} {} {}\n", n, e.ns.text(), e.dir.name(), vcommon::hex(&f)));
+                n += 1;
+                inflated += 1;
+            }
+        }
+        c.extra.insert("probe_frames_with_inflated_payloads".into(), json!(inflated));
+        c.extra.insert("probe_frames_with_counts_between_the_allocation_limits".into(), json!(big_counts));
         // large server frames around the 2/3-byte Wrath header boundary (SMSG_WARDEN_DATA carries free bytes)
         for e in es.iter().filter(|e| e.name == "SMSG_WARDEN_DATA" && e.dir == Direction::Server) {
             for len in [0x7FFCusize, 0x7FFD, 0x7FFE, 0x8000, 0x9000] {
